@@ -385,7 +385,7 @@ func checkC04(res *Result) {
 					continue
 				}
 				seenLoop[hdr] = true
-				tot, why := totalLoop(loopBlocks(c.Block()), failureReturnPred(ff))
+				tot, why := totalLoopFF(ff, loopBlocks(c.Block()))
 				res.check(tot, "C04-R6", name, p.pos(c), "every object of the activity is processed (loop left early only by failing)", why)
 				okObj := false
 				for _, a := range c.Common().Args {
@@ -399,7 +399,7 @@ func checkC04(res *Result) {
 		}
 		res.check(len(cs) == 1, "C04-R6", name, p.pos(fn), "the per-object closure is applied at one site", fmt.Sprintf("%d sites", len(cs)))
 		for _, c := range cs {
-			tot, why := totalLoop(loopBlocks(c.Block()), failureReturnPred(ff))
+			tot, why := totalLoopFF(ff, loopBlocks(c.Block()))
 			res.check(inLoop(c) && tot, "C04-R6", name, p.pos(c), "every object of the activity is processed (loop left early only by failing)", why)
 			g := flowOf(fn)
 			okObj := false
@@ -446,7 +446,7 @@ func checkC04(res *Result) {
 					c, ok := x.(*ssa.Call)
 					return ok && c.Common().IsInvoke() && c.Common().Method.Name() == "GetActivityStreamsActor" && isParamNamed(c.Common().Value, "a")
 				}), "C04-R6", fname(fn), p.pos(ci), "the actors of the Accept are what is added to following", "prepended value does not derive from the Accept's actors")
-				tot, why := totalLoop(loopBlocks(ci.Block()), failureReturnPred(ff))
+				tot, why := totalLoopFF(ff, loopBlocks(ci.Block()))
 				res.check(tot, "C04-R6", fname(fn), p.pos(ci), "every accepting actor is added", why)
 			}
 		}
